@@ -21,7 +21,7 @@ from mpgameserver.connection import ConnectionStatus
 PROPERTY = "C07"
 LEVEL = "model_checking"
 
-SIZES = {"small": 40, "empty": 0, "frag2": 1700, "frag3": 2600, "P": 1434}
+SIZES = {"small": 40, "empty": 0, "frag2": 1700, "frag3": 2600, "P": 1434, "frag40": 40 * 1024 + 100}
 FATES = ["drop", "dup", "delay2", "delay8", "delay70"]
 TIMEOUT = 1.0
 
@@ -219,6 +219,25 @@ def params_list(tier):
     return out
 
 
+def params_list_bound1(tier):
+    """configurations explored with <= 1 deviation: the timeout of one fragment competes with the acks of the others"""
+    out = []
+    for direction in ("c2s", "s2c"):
+        ack_dir = "s2c" if direction == "c2s" else "c2s"
+        # a message so long that its first fragments time out while the last ones are still being sent and acked
+        out.append((direction, (("frag40", "none"),), None, 0, "cs", 1))
+        if tier == "thorough":
+            out.append((direction, (("frag40", "retry"),), None, 0, "cs", 1))
+            out.append((direction, (("frag40", "best"),), None, 0, "sc", 0))
+        # acks held back for about one message timeout: every blackout length around it, so that for some length the
+        # first ack arrives after the first fragment's timeout and before the last fragment's
+        for L in (range(56, 72) if tier == "quick" else range(50, 80)):
+            out.append((direction, (("frag3", "none"),), (ack_dir, 0, L), 0, "cs", 1))
+            if tier == "thorough":
+                out.append((direction, (("frag2", "none"), ("small", "none")), (ack_dir, 0, L), 0, "sc", 0))
+    return out
+
+
 def run(tier, seed):
     rep = core.Report()
     plist = params_list(tier)
@@ -227,6 +246,10 @@ def run(tier, seed):
         plist = plist[k:] + plist[:k]
     bound = 2
     st = explore.explore_all("checks.c07", "scenario", plist, bound, time_budget=(200 if tier == "quick" else 2400))
+    plist1 = params_list_bound1(tier)
+    st1 = explore.explore_all("checks.c07", "scenario", plist1, 1, time_budget=(120 if tier == "quick" else 900))
+    st.violations.extend(st1.violations)
+    b1 = {"configurations": len(plist1), "executions": st1.executions, "by_deviations": st1.by_cost, "capped_by_time_budget": st1.capped, "distinct_outcomes": len(st1.outcomes)}
     b3 = None
     if tier == "thorough":
         sub = [p for p in plist if p[1][0][0] != "stream" and len(p[1]) == 1 and p[2] is None and p[3] == 0 and p[4] == "cs" and p[5] == 1][:8]
@@ -242,7 +265,7 @@ def run(tier, seed):
         "max_deviations_completed": bound if not st.capped else "capped",
         "distinct_outcomes": len(st.outcomes), "evaluations": st.executions, "distinct_nontrivial": len(st.outcomes),
         "rule": "states = execution-tree nodes; transitions = virtual ticks on the real stack; outcomes = per-send callback value sequences + connection states",
-        "exhaustive": not st.capped, "samples": st.samples[:4], "bound3_part": b3,
+        "exhaustive": not st.capped and not st1.capped, "samples": st.samples[:4], "bound3_part": b3, "bound1_part": b1,
     }
     rep.assumptions = ["'accepted by the peer' is observed as 'handed to the peer application' (the harness drains deliveries in the same turn as the receive)",
                        "cb(False) timing is measured from the send() call, a lower bound of the datagram send time",
